@@ -245,14 +245,14 @@ def exp_log(j, rng, n):
                 j.ok(cid)
         # log(exp(q)) = q when the vector part has norm in (0, pi)
         q2 = Quaternion(rng.uniform(-2, 2), v * vn)
-        cid = ("log(exp(q))", "|v|=%g" % vn)
+        cid = ("log(exp(q))", "absv=%g" % vn)
         try:
             d = float(np.max(np.abs(q2.exp().log().vec - q2.vec)))
         except Exception as ex:  # noqa: BLE001
-            j.fail("%s|Quaternion.log/exp|log(exp(q));|v|=%g|raised-%s" % (PID, vn, type(ex).__name__), {"q": q2.vec.tolist()}, cid)
+            j.fail("%s|Quaternion.log/exp|log(exp(q));absv=%g|raised-%s" % (PID, vn, type(ex).__name__), {"q": q2.vec.tolist()}, cid)
         else:
             if d > 1e-6:
-                j.fail("%s|Quaternion.log/exp|log(exp(q));|v|=%g|law-violated" % (PID, vn), {"q": q2.vec.tolist(), "distance": d}, cid)
+                j.fail("%s|Quaternion.log/exp|log(exp(q));absv=%g|law-violated" % (PID, vn), {"q": q2.vec.tolist(), "distance": d}, cid)
             else:
                 j.ok(cid)
         # unit quaternion: exp(log(q)) = q
